@@ -73,6 +73,32 @@ fn main() {
             let b = gtv::harness::build(&ag).ok().unwrap();
             println!("{}", gtv::harness::trace_lr(&b, &inputs[k], 60));
         }
+        "parse" => {
+            // print the recovering parse of input k of a stored (recovery) case
+            let f = args.get(2).unwrap();
+            let k: usize = args.get(3).and_then(|x| x.parse().ok()).unwrap_or(0);
+            let v: serde_json::Value = serde_json::from_str(&std::fs::read_to_string(f).unwrap()).unwrap();
+            let ag: gtv::genr::grammar::AG = serde_json::from_value(v["case"]["ag"].clone()).unwrap();
+            let inputs: Vec<Vec<usize>> = serde_json::from_value(v["case"]["inputs"].clone()).unwrap();
+            let costs: Vec<u8> = serde_json::from_value(v["case"]["costs"].clone()).unwrap_or(vec![1; ag.tokens.len()]);
+            println!("{}", gtv::genr::grammar::render_simple(&ag));
+            let b = gtv::harness::build(&ag).ok().unwrap();
+            let layout = gtv::harness::Layout::unit(inputs[k].len());
+            println!("input {:?} (lexeme i starts at 2i+1)", inputs[k].iter().map(|t| ag.tokens[*t].as_str()).collect::<Vec<_>>());
+            let (t, e, hit) = gtv::harness::parse_tree_rec(&b, &inputs[k], &layout, Some(&costs), gtv::harness::RECOVERY_CAP).unwrap();
+            println!("cap_hit {hit} value {}", t.is_some());
+            for x in &e {
+                println!("error at offset {} (tok id {}) state {} repairs:", x.start, x.tok_id, x.stidx);
+                for r in &x.repairs {
+                    println!("    {:?}", r);
+                }
+            }
+        }
+        "mkag" => {
+            // abstract grammar JSON from the simple text format
+            let ag = gtv::genr::grammar::parse_simple(args.get(2).unwrap());
+            println!("{}", serde_json::to_string(&ag).unwrap());
+        }
         "dbg" => {
             // in-process evaluation of a stored case (for debugging hangs with gdb)
             let Some(f) = args.get(2) else { usage() };
